@@ -33,6 +33,7 @@ s=open('$src/meta.json').read()
 for t in glob.glob('$src/demo/*.txt')+glob.glob('$src/*.txt')+glob.glob('$src/*.md'): s+=open(t).read()
 b='$(basename $f)'
 mm=re.search(r'(?:->|placed at|place at|to)\s*\`?([\w/.-]*/'+re.escape(b)+')', s)
+if not mm: mm=re.search(re.escape(b)+r'[^\n]{0,40}?(?:->|place at|placed at|goes to|to)\s*\`?([\w/.-]+/[\w.-]+_test\.go)', s)
 print(mm.group(1) if mm else '')")
   [ -z "$rel" ] && { echo "FAIL: cannot place demo $f"; exit 1; }
   mkdir -p $(dirname $rel); cp $f $rel; echo "demo placed: $rel"
